@@ -113,4 +113,39 @@ theorem slot_stale {I K O : Type} [DecidableEq K] (key : I → K) (f : I → O) 
   simp only [List.cons.injEq, and_true] at h
   exact hf h.2
 
+theorem dict_stale {I K O : Type} [DecidableEq K] (key : I → K) (f : I → O) (i j : I)
+    (hk : key i = key j) : dictRun key f [] [i, j] = [f i, f i] := by
+  simp [dictRun, dictStep, hk]
+
+theorem slot_hit {I K O : Type} [DecidableEq K] (key : I → K) (f : I → O) (i j : I)
+    (hk : key i = key j) : slotRun key f none [i, j] = [f i, f i] := by
+  simp [slotRun, slotStep, hk]
+
+/-- The invariant of a slot with an arbitrary hit test: the stored value is `f` of the input whose key is stored. -/
+theorem slotRunRel_sound {I K O : Type} (same : K → K → Bool) (key : I → K) (f : I → O)
+    (href : ∀ i j, same (key i) (key j) = true → f i = f j) :
+    ∀ (is : List I) (c : Option (K × O)), (∀ k o, c = some (k, o) → ∃ i, key i = k ∧ f i = o) →
+      slotRunRel same key f c is = is.map f
+  | [], _, _ => rfl
+  | i :: is, c, hc => by
+    simp only [slotRunRel, List.map_cons]
+    cases c with
+    | none =>
+      simp only [slotStepRel]
+      rw [slotRunRel_sound same key f href is _ (by intro k o h; cases h; exact ⟨i, rfl, rfl⟩)]
+    | some ko =>
+      obtain ⟨k, o⟩ := ko
+      simp only [slotStepRel]
+      by_cases hk : same k (key i) = true
+      · simp only [hk, if_true]
+        obtain ⟨i0, hi0, ho⟩ := hc k o rfl
+        have : o = f i := by rw [← ho]; exact href i0 i (by rw [hi0]; exact hk)
+        rw [this, slotRunRel_sound same key f href is _ (by intro k' o' h; cases h; exact ⟨i0, hi0, by rw [ho, this]⟩)]
+      · simp only [hk, Bool.false_eq_true, if_false]
+        rw [slotRunRel_sound same key f href is _ (by intro k' o' h; cases h; exact ⟨i, rfl, rfl⟩)]
+
+theorem slotRel_hit {I K O : Type} (same : K → K → Bool) (key : I → K) (f : I → O) (i j : I)
+    (hk : same (key i) (key j) = true) : slotRunRel same key f none [i, j] = [f i, f i] := by
+  simp [slotRunRel, slotStepRel, hk]
+
 end GlueVerif.C05Cache
